@@ -33,6 +33,7 @@ DELATTR_GUARDED = True    # Model.v: delattr_guarded
 TUPLES_FROZEN = True      # Model.v: tuples_frozen
 TRESTORE = True            # /repo since 916e580: restoring state re-applies the owner's flag to its tuple priors (Model.v: tuple_flag_restored)
 CACHE_COUNTS = True       # Model.v: cache_counts_modifications (needs the other two)
+CACHE_COPIES = True        # /repo since d65effc: frozen_cache hands out copies of cached lists / dicts (probed on every run)
 DERIVE_THAWS = False       # /repo since b8214a7: prior passing unfreezes its copy, not self (Model.v: derive_thaws)
 
 
@@ -456,7 +457,7 @@ class Mirror:
             # reference semantics: the returned list belongs to the caller, nothing happens to the model.  The code hands
             # out the list object stored in the frozen cache (only unique_prior_tuples / prior_tuples_ordered_by_id are
             # rebuilt by cast_collection), which stays in use until some model of the process is modified
-            if self.objs[op[1]].frozen and op[2][1] != "unique":
+            if not CACHE_COPIES and self.objs[op[1]].frozen and op[2][1] != "unique":
                 self.scrambled.add(op[1])
                 return {"ok": None}, ["returned-list-edited-by-caller"]
             return {"ok": None}, []
@@ -485,6 +486,36 @@ class Mirror:
             return {"ok": None}, []
         if k == "failwalk":
             return {"exc": "TypeError"}, []           # harmless since 5afd9f1 (the corpus history pins it)
+        if k == "derived":
+            how = op[2]
+            if self.loops(o):
+                return None, []
+            if how in ("with_paths", "without_paths"):
+                sel = [tuple(x) for x in op[3]]
+                labels = []
+                if how == "with_paths":
+                    for x in sel:
+                        cur, parent, v = o, None, None
+                        for name in x:
+                            v = self.objs[cur].get(name)
+                            if v is None or v[0] != "r":
+                                v = None
+                                break
+                            parent, cur = cur, v[1]
+                        if v is None:
+                            continue
+                        # the path names a whole component: _with_paths hands the component itself to setattr of the reduced
+                        # copy of its parent; Model.__setattr__ writes into the assigned component, which a frozen one refuses
+                        if self.is_pm(v) and self.objs[parent].kind == "model" and self.refuses_label(v):
+                            return {"exc": "AssertionError"}, ["with-paths-frozen-component-under-model"]
+                        if self.objs[cur].kind == "tuple":
+                            labels.append("with-paths-whole-tuple-prior")     # TuplePrior._with_paths({}) is an EMPTY tuple prior
+                inside = lambda pth: any(tuple(pth[:len(x)]) == x for x in sel)
+                keep = inside if how == "with_paths" else (lambda pth: not inside(pth))
+                return {"ok": sorted([pth, l] for pth, l in self.paths(o) if keep(pth))}, labels
+            if how in ("copy_freeze", "copy_unfreeze"):
+                return {"ok": sorted([pth, l] for pth, l in self.paths(o))}, []
+            return None, []          # outcome of the call itself unconstrained; the original must stay as it is
         if k == "derive":
             labels = ["derive-thaws-frozen"] if DERIVE_THAWS and self.derive_would_thaw(o) else []
             if DERIVE_THAWS:
@@ -688,6 +719,49 @@ class Gen:
                                  self.rng.random() < 0.4]]
         return ["query", o, [k, self.vector(o)] if k == "instance" else [k]]
 
+    def derived_op(self, o):
+        r, m = self.rng, self.m
+        how = r.choice(["with_paths", "with_paths", "with_paths", "without_paths", "copy_freeze", "copy_unfreeze", "partial",
+                        "replacing", "without_attributes"])
+        if how in ("with_paths", "without_attributes") and any(
+                m.objs[t].kind != "tuple" and any(v[0] == "r" and m.objs[v[1]].kind == "tuple" and m.objs[v[1]].frozen != m.objs[t].frozen
+                                                  for _, v in m.objs[t].attrs) for t in m.reach(o)):
+            # a tuple prior shared by owners of different flags (reachable only through a user-level shallow copy): the shallow
+            # copy inside without_attributes re-applies ITS owner's flag to the shared tuple, exactly as `restore shallow` does
+            # (916e580, modelled there); not repeated for the derived operations, which the model does not replay
+            return None
+        if how in ("with_paths", "without_paths"):
+            full = [pth for pth, _ in m.walk(["r", o], "prior")]
+            if not full:
+                return None
+            sel = []
+            for pth in r.sample(full, min(len(full), r.randint(1, 2))):
+                x = pth[:r.randint(1, len(pth))]               # a whole component or a single parameter
+                if not any(x[:len(y)] == y or y[:len(x)] == x for y in sel):      # (paths_to_tree merges nested selections)
+                    sel.append(x)
+            return ["derived", o, how, sel]
+        return ["derived", o, how, None]
+
+    def probe_after_derived(self, o):
+        """after a derived-copy query on a frozen object: every nested component / tuple must still reject modification"""
+        r, m = self.rng, self.m
+        below = [t for t in sorted(m.reach(o)) if m.objs[t].frozen]
+        for t in r.sample(below, min(len(below), r.randint(1, 3))):
+            ob = m.objs[t]
+            x = r.random()
+            if ob.kind == "coll" and x < 0.3:
+                self.emit(["append", t, self.leafval()])
+            elif ob.kind == "coll" and x < 0.5:
+                self.emit(["setitem", t, r.choice(COLL_KEYS), self.leafval()])
+            elif ob.attrs and x < 0.65:
+                self.emit(["del", t, r.choice(ob.attrs)[0]])
+            elif ob.kind == "tuple":
+                self.emit(["set", t, "pos_%d" % r.randint(0, 2), self.leafval()])
+            else:
+                names = (self.classes[ob.cls] + MODEL_EXTRA) if ob.kind == "model" else COLL_KEYS
+                self.emit(["set", t, r.choice([n for n in names if n != "pos"] or names), self.leafval()])
+        self.emit(self.query(o))
+
     def raw_query(self):
         r = self.rng
         what = r.choice(["pit", "pit", "pit", "attr", "unique", "direct", "mtt"])
@@ -718,6 +792,17 @@ class Gen:
             rq = self.raw_query()
             self.emit(["scramble", o, rq])
             return ["query", o, rq] if r.random() < 0.5 else self.query(o)
+        if r.random() < 0.06:
+            frozen = [i for i in pms if m.objs[i].frozen and not m.loops(i)]
+            cands = frozen if frozen and r.random() < 0.8 else [i for i in pms if not m.loops(i)]
+            if cands:
+                o = r.choice(cands)
+                op = self.derived_op(o)
+                if op is not None:
+                    self.emit(op)
+                    if m.objs[o].frozen:
+                        self.probe_after_derived(o)
+                    return None
         if x < 0.40:
             return self.query(r.choice(pms))
         if x < 0.52:
@@ -992,6 +1077,22 @@ def scenario_cases():
     out.append(base(ops))
     out.append(base(build + A + [["freeze", 4]] + A + A[::-1] + A[7:] + A[:7] + allq(2, [1, 2], [1, 3]) + allq(3, [1, 2], [4, 0]) +
                     [["copy", 4]] + allq(5, [1, 2, 3, 4, 5, 6], [4, 3, 2, 1, 0, 2]) + A[::-1] + [["unfreeze", 4]] + A))
+    # after EVERY query that builds a derived copy of a frozen model, every nested component and tuple prior of the ORIGINAL
+    # still rejects set / setitem / append / del and all answers are what they were
+    nest = [["new", "tuple", None, [["pos_0", P(5)], ["pos_1", ["c", 2]]], 0], ["new", "model", 2, [["pos", ["r", 0]], ["w", P(1)]], 0],
+            ["new", "model", 0, [["a", P(4)], ["b", P(0)]], 0], ["new", "coll", None, [["m", ["r", 2]], ["n", ["r", 1]]], 0],
+            ["new", "coll", None, [["k", ["r", 3]], ["q", P(2)]], 0], ["freeze", 4]]
+    attempts = [["set", 2, "a", ["c", 1]], ["set", 2, "e", P(6)], ["setitem", 3, "s", P(6)], ["append", 3, P(6)], ["del", 3, "m"],
+                ["del", 2, "b"], ["set", 0, "pos_0", ["c", 1]], ["set", 1, "pos_1", P(6)], ["set", 1, "w", ["c", 3]], ["set", 4, "r", P(6)],
+                ["del", 1, "w"], ["del", 0, "pos_0"]]
+    Q4 = [["query", 4, q] for q in (["count"], ["paths"], ["info"], ["instance", [1, 2, 3, 4, 5]], ["raw", "pit", "prior"], ["allpaths"])]
+    ops = nest + Q4
+    for d in (["with_paths", [["k", "m"]]], ["with_paths", [["k", "n", "pos"], ["q"]]], ["with_paths", [["k", "m", "a"], ["k", "n", "w"]]],
+              ["without_paths", [["k", "m"]]], ["without_paths", [["k", "n", "pos", "pos_0"]]], ["copy_freeze", None], ["copy_unfreeze", None],
+              ["partial", None], ["replacing", None], ["without_attributes", None]):
+        ops += [["derived", 4, d[0], d[1]]] + attempts + Q4
+    ops += [["derived", 3, "with_paths", [["n"]]]] + attempts + [["derived", 1, "with_paths", [["pos"]]]] + attempts + Q4
+    out.append(base(ops))
     return out
 
 
@@ -1068,7 +1169,7 @@ def oracle(case, res, limit=6):
     for i, (op, r) in enumerate(zip(case["ops"], res["outs"])):
         k = op[0]
         flags_before = [ob.frozen for ob in m.objs]
-        pre_relevant = m.relevant(op[1]) if k in ("query", "derive") else []
+        pre_relevant = m.relevant(op[1]) if k in ("query", "derive", "derived") else []
         target = op[1] if k in ("set", "setitem", "append", "del") else None
         if k in ("set", "setitem"):
             target = m.set_target(op[1], op[2])
@@ -1114,6 +1215,23 @@ def oracle(case, res, limit=6):
         elif k == "failwalk":
             if "exc" not in got:
                 fail("the failing call did not fail", [], i)
+                break
+        elif k == "derived":
+            if "ok" in got and got["ok"] is not None:
+                got = {"ok": sorted(got["ok"])}        # ties (one prior under several paths) follow the order of the selection
+            if exp is not None and "exc" in exp and got == exp:
+                # predicted exactly: with_paths of a frozen component directly under a Model raises (known finding)
+                if fail("with_paths on object %d raises AssertionError: the selected component is frozen and sits directly under a Model"
+                        % op[1], labels, i):
+                    break
+            elif exp is not None and got != exp:
+                if fail("%s of object %d: outcome %s, the composition gives %s" % (op[2], op[1], json.dumps(got)[:300], json.dumps(exp)[:300]),
+                        pre_relevant + [l for l in labels if l == "with-paths-whole-tuple-prior"], i):
+                    break
+            if r.get("flags") is not None and r["flags"] != flags_before:
+                changed = [t for t, (a, b) in enumerate(zip(r["flags"], flags_before)) if a != b]
+                fail("%s on object %d (a query that builds a derived copy) changed the frozen flag of objects %s of the original"
+                     % (op[2], op[1], changed), ["delattr-on-frozen"] if set(changed) & m.uncertain else [], i)
                 break
         elif k == "derive" and exp is None:
             pass
@@ -1197,7 +1315,7 @@ def nontrivial(case):
         k = op[0]
         if k == "freeze":
             froze = True
-        elif froze and k in ("set", "setitem", "append", "del", "unfreeze", "copy", "restore", "failwalk", "derive", "scramble"):
+        elif froze and k in ("set", "setitem", "append", "del", "unfreeze", "copy", "restore", "failwalk", "derive", "scramble", "derived"):
             changed = True
         elif k == "query" and froze and changed:
             return True
@@ -1357,6 +1475,12 @@ def has_scramble(case):
 
 
 def coq_case(case, res):
+    # queries that build a derived copy (with_paths ...) have no counterpart in the model: they are ERASED from the history the
+    # model replays -- the model's claim is that the original does not notice them (their own outcome is the oracle's business)
+    keep = [i for i, op in enumerate(case["ops"]) if op[0] not in ("derived", "scramble")]
+    if len(keep) != len(case["ops"]):
+        case = dict(case, ops=[case["ops"][i] for i in keep])
+        res = dict(res, outs=[res["outs"][i] for i in keep])
     cl = clist([clist([cs(n) for n in names]) for names in case["classes"]])
     pr = clist(["(%d%%nat, ((%d)%%Z, (%d)%%Z))" % (p, lo, hi) for p, lo, hi in case["priors"]])
     ops = clist([cop(op) for op in case["ops"]])
@@ -1406,8 +1530,12 @@ def run(ctx):
                 "__module__ (distinct class objects, as from a class factory) and may derive from each other; prior ids are handed out in "
                 "an order different from the traversal order; the compared replay contains the history and nothing else (the shadow deep "
                 "copies run in a second replay, because copying / thawing advances the modification counter); modes: "
-                "'alias' (the caller reverses / shortens lists a frozen model returned; oracle only, known finding "
-                "returned-list-edited-by-caller until proposed_fixes/C13-frozen-cache-returns-copy is applied), "
+                "'alias' (the caller reverses / shortens lists a frozen model returned: no effect since d65effc, frozen_cache hands out "
+                "copies; pinned as regression:returned-list-edited-by-caller; the running variant is probed on every run), "
+                "'derived' operations in every mode (with_paths / without_paths / copy+freeze / copy+unfreeze / partial prior passing / "
+                "replacing / without_attributes on mostly frozen objects, followed by set / setitem / append / del attempts on nested "
+                "components and tuple priors of the ORIGINAL and a query; flags compared after the call; erased from the history the "
+                "Coq model replays, like scramble), "
                 "'clean' (nothing is attempted below a frozen object), 'stale' (modifications, deletions, tuple members and thawed "
                 "components below frozen ancestors), 'ids' (item assignment of shared priors over existing keys), 'poison' (failing "
                 "calls); since 29fc8b9 no mode has a finding label and every history is checked against the full theorem; a case is "
@@ -1454,6 +1582,11 @@ def run(ctx):
             return
         for j, r in enumerate(o["results"]):
             results[i + j * common.NCPU] = r
+    probes = [r.get("probe") for r in results if isinstance(r, dict) and r.get("probe") is not None]
+    ctx.obligation("code-variant:frozen-cache-hands-out-copies", "correspondence",
+                   bool(probes) and all(pr.get("cache_copies") == CACHE_COPIES for pr in probes),
+                   "probe on the running code: a frozen model returns %s (the reference and the model's value semantics assume copies=%s)"
+                   % (sorted({str(pr.get("cache_copies")) for pr in probes}), CACHE_COPIES))
     coq_cases, coq_idx, ccases = [], [], []
     regress = []
     for i, (c, r) in enumerate(zip(cases, results)):
@@ -1481,8 +1614,7 @@ def run(ctx):
             ctx.failure("oracle", "op %d: %s" % (at, msg), key, classes=classes,
                         impl={"outs": [{k: v for k, v in rec.items() if k != "shadow"} for rec in r["outs"][max(0, at - 3):at + 1]]})
         if has_scramble(c):
-            ctx.hist("oracle-only", "caller-edits-returned-list")
-            continue
+            ctx.hist("with-caller-edits", "yes")
         coq_cases.append(coq_case(c, r))
         ccases.append(coq_ccase(c, r))
         coq_idx.append(i)
@@ -1553,8 +1685,11 @@ MANIFEST = {
             "oracle against a cache-free reference",
     "note": "Trusted: Coq kernel + vm_compute, the abstraction in harness/vcheck/c13.py and harness/impl/c13_impl.py. Object identity is "
             "abstract (id() reuse not modelled), walk fuel 12, info is compared through the lists it is rendered from. Cached results are "
-            "values in the model (no aliasing): a caller that edits a list returned by a frozen model changes its later answers in the code "
-            "as it is (known finding returned-list-edited-by-caller, repair proposed: frozen_cache returns a copy); those histories are "
-            "oracle-only. Class tables vary per history (shared names, subclasses, permuted / sub- / superset constructor signatures).",
+            "values in the model, which is the code since d65effc (frozen_cache returns copies; probed on every run, a revert shows as "
+            "oracle + correspondence failures of the pinned history). Queries that build derived copies (with_paths, without_paths, "
+            "copy+freeze/unfreeze, partial prior passing, replacing, without_attributes) and caller-side edits of returned lists are "
+            "not operations of the model: they are erased from the history it replays, i.e. the correspondence checks that the original "
+            "does not notice them; their own outcome is checked by the oracle only. Class tables vary per history (shared names, "
+            "subclasses, permuted / sub- / superset constructor signatures).",
     "technique": "machine-checked proof in Coq (state-machine model, invariant) + vm_compute correspondence",
 }
